@@ -82,6 +82,7 @@ pub open spec fn lookup(st: Seq<Scope>, name: Seq<char>, n: int) -> Option<Seq<c
 }
 
 pub uninterp spec fn defaulted(e: SvgElement) -> bool;
+pub uninterp spec fn attrs_evaluated(a: AttrMap, c: ClassList) -> bool;
 /// everything of the context a scoping generator must restore
 pub open spec fn scope_frame(pre: TransformerContext, post: TransformerContext) -> bool {
     &&& post.element_stack@ == pre.element_stack@
@@ -103,11 +104,13 @@ impl SvgElement {
     #[verifier::external_body] pub fn set_attr(&mut self, key: &str, value: &str) { unimplemented!() }
     #[verifier::external_body] pub fn pop_attr(&mut self, key: &str) -> Option<String> { unimplemented!() }
     /// ghost: the `{{..}}` / `$var` expressions of the attribute values have been evaluated
-    pub uninterp spec fn evaluated(&self) -> bool;
+    pub open spec fn evaluated(&self) -> bool { attrs_evaluated(self.attrs, self.classes) }     // a property of the attribute values (not of the cached content box)
     #[verifier::external_body] pub fn eval_attributes(&mut self, ctx: &TransformerContext) -> (r: Result<()>) ensures r is Ok ==> final(self).evaluated() { unimplemented!() }
     #[verifier::external_body] pub fn inner_events(&self, context: &TransformerContext) -> Option<InputList> { unimplemented!() }
     #[verifier::external_body] pub fn is_empty_element(&self) -> bool { unimplemented!() }
-    #[verifier::external_body] pub fn bbox(&self) -> Result<Option<BoundingBox>> { unimplemented!() }
+    #[verifier::external_body] pub fn bbox(&self) -> Result<Option<BoundingBox>>
+        requires self.evaluated()     // the box (which applies the element's transform attribute) is computed from evaluated attributes: transform="translate({{1 + 2}} $t)" is legal @C14.group.box_from_evaluated_attributes @C08.group.box_from_evaluated_attributes
+    { unimplemented!() }
     #[verifier::external_body] pub fn expand_compound_size(&mut self)
         requires old(self).evaluated(),     // a compound value (wh, rxy, dwh) is split into its parts only after its expressions are evaluated: "{{$s * 2}} {{$s - 1}}" has blanks inside the expressions @C14.reuse.evaluated_before_split @C18.reuse.evaluated_before_split
         ensures final(self).evaluated()
